@@ -48,7 +48,8 @@ CFG = {
         "C08_merc_ell_inv_within", "C08_lcc_inv_within", "tmercPhi_contracts", "C08_tmerc_footpoint_converges",
         "imlfn_contracts", "C08_imlfn_converges", "C08_eqdc_inv_within", "krovak_contracts", "C08_krovak_lat_fixed_unique",
         "krovakLoop_converges", "C08_krovak_lat_converges", "C08_krovak_inv_within", "logTs_sin_lipschitz",
-        "C08_merc_ell_reproject_within",
+        "C08_merc_ell_reproject_within", "mlfn_lipschitz", "C08_eqdc_reproject_within", "C08_lcc_reproject_within",
+        "C08_utm_sphere_inv",
         # the 7-parameter stage: exact residual of the small-angle inverse and its bound (the judge's a-priori bound)
         "C08_helmert_residual", "C08_helmert_residual_bound", "rot_sq_le_sum_sq", "C08_helmert_not_identity"]] + [
         # tie T1: model = definitions regenerated from the current Go source (rfl)
